@@ -216,8 +216,22 @@ func extractLayout(w *World, fn *ssa.Function, buf ssa.Value, encode bool, depth
 				}
 				return []wireOp{{Kind: "u8", Size: 1, Val: val, In: in}}, true
 			}
+		case (isPkgFunc(f, "encoding/binary", "ReadUvarint") || isPkgFunc(f, "encoding/binary", "ReadVarint")) && !encode:
+			if len(args) == 1 && onBuf(args[0]) {
+				li.Undecided = fmt.Sprintf("%s: binary.%s reads an integer of value-dependent width (1..10 bytes): variable-width header fields are not modelled — the client's fragment budget reserves a constant number of bytes for the request header", w.Pos(c.Pos()), f.Name())
+				return []wireOp{{Kind: "blob", In: in}}, true
+			}
 		case (isMethod(f, "bytes", "Buffer", "Write") || isMethod(f, "bytes", "Buffer", "WriteString")) && encode:
 			if onBuf(args[0]) {
+				if sl, ok := args[1].(*ssa.Slice); ok && sl.High != nil {
+					for _, root := range provenance(sl.High, provOpts{}) {
+						if rc, ok := root.(*ssa.Call); ok {
+							if rf := sCallee(rc); isPkgFunc(rf, "encoding/binary", "PutUvarint") || isPkgFunc(rf, "encoding/binary", "PutVarint") {
+								li.Undecided = fmt.Sprintf("%s: binary.%s writes an integer of value-dependent width (1..10 bytes): variable-width header fields are not modelled — the client's fragment budget reserves a constant number of bytes for the request header", w.Pos(c.Pos()), rf.Name())
+							}
+						}
+					}
+				}
 				return []wireOp{{Kind: "blob", Field: fieldPathOf(args[1]), In: in}}, true
 			}
 		case (isMethod(f, "bytes", "Buffer", "Read") || isMethod(f, "bytes", "Buffer", "ReadString") || isMethod(f, "bytes", "Buffer", "Bytes") || isMethod(f, "bytes", "Buffer", "Next")) && !encode:
